@@ -139,6 +139,15 @@ def gen_trace(rng, nrec, remove_pbc):
         if far and sum(ppp) == 0:
             ppp[rng.randrange(d)] = 1
         n = rng.randint(1, 50)
+        big = far and len(recs) >= nrec // 2 and not any(c.get("rows_in_call", 0) > 10000 for c in ctx)
+        if big:
+            # scale: ONE call with tens of thousands of displacement rows (all pair vectors of a large system), in an orthogonal
+            # and - next time round - a tilted cell; a seeded sample of its rows is recorded
+            n = 20000
+            if not any(c.get("rows_in_call", 0) > 10000 for c in ctx) and rng.random() < 0.7:
+                for i in range(d):
+                    for j in range(i):
+                        H[i][j] = 0
         R = [[rng.randint(-2 * Lmax, 2 * Lmax) for _ in range(d)] for _ in range(n)]
         if far:
             counts = [127, 128, 129, 255, 256, 257, 300, 1000] + ([32767, 32768, 32769, 40000] if d == 2 else [])
@@ -151,11 +160,12 @@ def gen_trace(rng, nrec, remove_pbc):
         out = np.asarray(remove_pbc(Rf, Hf, np.array(ppp)), dtype=float)
         coef = (Rf - out) @ np.linalg.inv(Hf)
         nint = np.rint(coef)
-        for i in range(n):
+        rows = range(n) if n <= 50 else sorted(rng.sample(range(n), 1500))
+        for i in rows:
             fin = bool(np.all(np.isfinite(coef[i])))
             lat = int(fin and np.all(np.abs(coef[i] - nint[i]) <= 1e-7))       # a non-finite result is no lattice translation
             recs.append({"H": H, "ppp": ppp, "r": R[i], "n": [int(x) if fin else 0 for x in nint[i]], "lat": lat})
-            ctx.append({"scale": S, "observed": out[i].tolist()})
+            ctx.append({"scale": S, "observed": out[i].tolist(), "rows_in_call": n})
             if len(recs) >= nrec:
                 break
     return recs, ctx
